@@ -5,6 +5,7 @@ import PraatModel.Tier
 import PraatModel.Crop
 import PraatModel.Ops
 import PraatModel.Textgrid
+import PraatModel.Query
 import PraatModel.Proto
 import PraatModel.Run
 import PraatModel.Lemmas.Tier
